@@ -12,6 +12,7 @@ import (
 	"net"
 	"strconv"
 	"strings"
+	"time"
 
 	pt "gitlab.torproject.org/tpo/anti-censorship/pluggable-transports/goptlib"
 
@@ -352,6 +353,9 @@ func scenarios(cfg *mc.Config, emit func(mc.Scenario)) {
 		emit(abortedThenConnect(seed, first))
 	}
 	emit(twoBridges(seed))
+	for _, d := range []time.Duration{0, 2 * time.Second, 20 * time.Second} {
+		emit(hourBoundary(seed, d))
+	}
 	for _, order := range [][]string{{"P0", "P1", "D0", "D1"}, {"P0", "P1", "D1", "D0"}, {"P0", "D0", "P1", "P2", "D2", "D1"}} {
 		emit(parseDialOrders(seed, order))
 	}
@@ -682,6 +686,74 @@ func twoBridges(seed int64) mc.Scenario {
 			fail(c, "no-panic", "panic/two-bridges", "%s", res.Panics[0])
 		}
 		c.Observe("two", fmt.Sprint(sum))
+	}}
+}
+
+// hourBoundary: the client's handshake is stamped one second before the top of
+// an hour and reaches the bridge (delay) seconds later, in the next hour (or the
+// bridge's answer reaches the client in the next hour): the genuine bridge
+// still completes and data flows both ways.
+func hourBoundary(seed int64, delay time.Duration) mc.Scenario {
+	return mc.Scenario{Name: fmt.Sprintf("hour-boundary/delay=%v", delay), Weight: 10, Run: func(c *mc.Ctx) {
+		br := o4h.NewBridge(seed, "c02/0", 0, false)
+		rnd.Install(rnd.New(seed, "c02-real-hour"))
+		sf, err := br.ServerFactory()
+		if err != nil {
+			fail(c, "setup", "setup", "%v", err)
+			return
+		}
+		var dialErr, wrapErr error
+		var echo, srvGot []byte
+		msg := []byte("hello-across-the-hour")
+		at := time.Unix(1_700_000_000, 0).Truncate(time.Hour).Add(time.Hour - time.Second)
+		res := sched.Run(c, sched.Options{NoPreempt: true, NoEarlyTimers: true, Start: at, MaxSteps: 3_000_000}, func() {
+			s := sched.Cur()
+			cw, sw := wire.Pipe("client", "server")
+			done := false
+			s.Spawn("server", func() {
+				defer func() { done = true }()
+				sched.Sleep(delay) // the client's first flight is on its way
+				var conn net.Conn
+				conn, wrapErr = sf.WrapConn(sw)
+				if wrapErr != nil {
+					return
+				}
+				buf := make([]byte, 64)
+				nr, err := conn.Read(buf)
+				if err != nil {
+					return
+				}
+				srvGot = append([]byte{}, buf[:nr]...)
+				conn.Write(buf[:nr])
+			})
+			var conn net.Conn
+			conn, dialErr = o4h.Dial(br.ClientArgs("cert", sf), cw)
+			if dialErr == nil {
+				conn.Write(msg)
+				buf := make([]byte, 64)
+				for len(echo) < len(msg) {
+					nr, err := conn.Read(buf)
+					echo = append(echo, buf[:nr]...)
+					if err != nil {
+						break
+					}
+				}
+				conn.Close()
+			} else {
+				cw.Close()
+			}
+			s.Point("server-done", func() bool { return done })
+		})
+		if len(res.Panics) > 0 {
+			fail(c, "no-panic", "panic/hour-boundary", "%s", res.Panics[0])
+			return
+		}
+		c.Observe("hour", fmt.Sprint(dialErr, wrapErr, len(echo)))
+		if dialErr != nil || wrapErr != nil {
+			fail(c, "must-complete", "rejected/hour-boundary", "client handshake stamped 1 s before the top of the hour, processed by the genuine bridge %v later: Dial=%v WrapConn=%v", delay, dialErr, wrapErr)
+		} else if !bytes.Equal(echo, msg) || !bytes.Equal(srvGot, msg) {
+			fail(c, "session-keys", "echo/hour-boundary", "echo %q, server saw %q, want %q", echo, srvGot, msg)
+		}
 	}}
 }
 
